@@ -1155,15 +1155,18 @@ impl FromIterator<char> for LeanString {
         let iter = iter.into_iter();
 
         let (lower_bound, _) = iter.size_hint();
-        let mut repr = match Repr::with_capacity(lower_bound) {
+        let repr = match Repr::with_capacity(lower_bound) {
             Ok(buf) => buf,
             Err(_) => Repr::new(), // Ignore the error and hope that the lower_bound is incorrect.
         };
 
+        // Own the buffer through `LeanString` (which implements `Drop`) so that it is released if
+        // the iterator panics or if pushing fails.
+        let mut buf = LeanString(repr);
         for ch in iter {
-            repr.push_str(ch.encode_utf8(&mut [0; 4])).unwrap_with_msg();
+            buf.push(ch);
         }
-        LeanString(repr)
+        buf
     }
 }
 
